@@ -61,6 +61,44 @@ def gen_module(rng, k):
     return "\n".join(L) + "\n"
 
 
+def gen_meta_module(rng, k, src):
+    """a module whose cythonize() metadata block is built from sets of path strings: several extern headers
+    that exist on disk (direct and through a cimported .pxd), '# distutils:' lists, include directories"""
+    n = rng.randrange(4, 8)
+    hs = ["c42_m%d_%s.h" % (k, "".join(rng.choice("abcdefghijklmnopqrstuvwxyz") for _ in range(rng.randrange(2, 9)))) for _ in range(n)]
+    for h in hs:
+        with open(os.path.join(src, h), "w") as f:
+            f.write("static int %s_v = %d;\n" % (h[:-2], rng.randrange(1000)))
+    pxd_h = "c42_m%d_pxdhdr.h" % k
+    with open(os.path.join(src, pxd_h), "w") as f:
+        f.write("static int c42_m%d_pv = 1;\n" % k)
+    with open(os.path.join(src, "c42_metapxd%d.pxd" % k), "w") as f:
+        f.write('cdef extern from "%s":\n    int c42_m%d_pv\n' % (pxd_h, k))
+    order = hs[:]
+    rng.shuffle(order)
+    L = ["# distutils: depends = %s %s" % (order[0], order[-1]),
+         "# distutils: libraries = m",
+         "# distutils: define_macros = C42_Z=1, C42_A=2, C42_M=3",
+         "# distutils: include_dirs = . inc_b inc_a",
+         "cimport c42_metapxd%d" % k, ""]
+    for h in order:
+        L += ['cdef extern from "%s":' % h, "    int %s_v" % h[:-2], ""]
+    L += ["def total():", "    return " + " + ".join("%s_v" % h[:-2] for h in hs) + " + c42_metapxd%d.c42_m%d_pv" % (k, k), ""]
+    return "\n".join(L) + "\n"
+
+
+def metadata_of(c):
+    a = c.find(b"/* BEGIN: Cython Metadata")
+    if a < 0:
+        return None
+    a = c.find(b"\n", a) + 1
+    e = c.find(b"END: Cython Metadata */", a)
+    try:
+        return json.loads(c[a:e].decode())
+    except Exception:
+        return None
+
+
 WORKER = r'''
 import sys, os, json
 sys.path.insert(0, os.environ["VERIF_HARNESS"])
@@ -131,6 +169,13 @@ def run(ctx):
         with open(os.path.join(src, name), "w") as f:
             f.write(gen_module(ctx.rng, k))
         files.append(name)
+    meta_files = []
+    for k in range(2 if quick else 6):
+        name = "c42_meta%d.pyx" % k
+        with open(os.path.join(src, name), "w") as f:
+            f.write(gen_meta_module(ctx.rng, k, src))
+        files.append(name)
+        meta_files.append(name)
     corpus = [c for c in CORPUS if os.path.basename(c) in QUICK_OK] if quick else CORPUS
     for rel in corpus:
         p = os.path.join(ctx.repo, rel)
@@ -192,6 +237,33 @@ def run(ctx):
         elif strip_metadata(b) != ref:
             ctx.fail("c_output_depends_on_entry_point", {"module": f}, first_diff(ref, strip_metadata(b)),
                      "cythonize() output = Main.compile() output apart from the metadata block")
+    # the metadata block itself (distutils options, resolved dependency lists) under every hash seed
+    meta_usable = [f for f in meta_files if f in usable]
+    mseeds = seeds + ([5, 77] if quick else [5, 77, 1000, 31337])
+    with cf.ThreadPoolExecutor(max_workers=8) as ex:
+        futs = {}
+        for sd in mseeds:
+            od = os.path.join(wd, "out_meta_seed%d" % sd)
+            os.makedirs(od, exist_ok=True)
+            futs[sd] = ex.submit(run_worker, wd, {"mode": "batch", "cwd": src, "files": meta_usable, "outdir": od, "nthreads": 0}, sd)
+        mstat = {sd: fu.result() for sd, fu in futs.items()}
+    for f in meta_usable:
+        ref = read(os.path.join(wd, "out_meta_seed%d" % mseeds[0]), f)
+        md = metadata_of(ref) if ref else None
+        if md is None:
+            ctx.corr_break("cythonize metadata block", f, str(mstat[mseeds[0]])[:300], "a JSON metadata block in the generated C file")
+            continue
+        dep = (md.get("distutils") or {}).get("depends", [])
+        ctx.case("metadata-shape", {"module": f, "depends": len(dep)}, sig=(f, "metashape"), nontrivial=len(dep) >= 4)
+        # tie to the model of sorted emission (M_SortEmit): a list built from a set is emitted sorted, duplicate-free
+        if dep != sorted(set(dep)) or len(dep) < 4:
+            ctx.corr_break("metadata depends = sorted(set(...)) with the extern headers", f, dep, "sorted, duplicate-free, >= 4 entries")
+        for sd in mseeds[1:]:
+            other = read(os.path.join(wd, "out_meta_seed%d" % sd), f)
+            ctx.case("hashseed-metadata", {"module": f, "seeds": [mseeds[0], sd]}, sig=(f, "meta", sd))
+            if other != ref:
+                ctx.fail("c_output_depends_on_hash_seed", {"module": f, "seeds": [mseeds[0], sd], "entry": "cythonize"},
+                         first_diff(ref, other) if other is not None else str(mstat[sd])[:300], "byte-identical C files")
     if not quick:
         run_selfcompiled(ctx, wd, src, usable, os.path.join(wd, "out_seed%d" % seeds[0]))
     ctx.extra["modules_compared"] = usable
